@@ -35,7 +35,7 @@ type tier struct {
 }
 
 func tierOf(thorough bool) tier {
-	t := tier{maxR: 5, fullR: 3, twoOldR: 4, scaleR: 0, lagR: 0, budget: 50 * time.Second, maxStates: 12_000_000}
+	t := tier{maxR: 5, fullR: 3, twoOldR: 3, scaleR: 0, lagR: 0, budget: 50 * time.Second, maxStates: 12_000_000}
 	if thorough {
 		t = tier{maxR: 6, fullR: 4, twoOldR: 5, scaleR: 3, scaleB: 1, lagR: 3, budget: 13 * time.Minute, maxStates: 40_000_000}
 	}
@@ -632,7 +632,6 @@ groupLoop:
 		}
 	}
 	r.Extra["convergence"] = map[string]interface{}{"covering_states": len(nodes), "fair_edges": len(fairEdges), "bottom_sccs": len(bott), "bottom_sccs_converged": okBottom}
-	r.Outcome(fmt.Sprintf("convergence:bottom-scc-converged"))
 	csigs := make([]string, 0, len(convFirst))
 	for s := range convFirst {
 		csigs = append(csigs, s)
